@@ -372,6 +372,8 @@ func (w *c2World) writeInst(in *c2Inst, u string, g int, kind string) {
 			post("elements", c2Elements(g))
 		} else {
 			del("element/10_20_20")
+			// (a move onto a position that still holds an element of an earlier generation is refused)
+			w.http("DELETE", base+"/element/6_6_6", nil) // 400 when nothing is there
 			post("move/5_5_5/6_6_6", nil)
 		}
 	case "labelmap":
